@@ -605,16 +605,23 @@ func biWorkerMain() {
 		os.Exit(2)
 	}
 	var seq atomic.Uint64
-	go func() { // watchdog
-		last, since := uint64(0), time.Now()
+	go func() { // watchdog: CPU time (not wall time: the machine may be busy) spent in one call
+		cpu := func() time.Duration {
+			var ru syscall.Rusage
+			if syscall.Getrusage(syscall.RUSAGE_SELF, &ru) != nil {
+				return 0
+			}
+			return time.Duration(ru.Utime.Nano() + ru.Stime.Nano())
+		}
+		last, sinceCPU, sinceWall := uint64(0), cpu(), time.Now()
 		for {
 			time.Sleep(50 * time.Millisecond)
 			cur := seq.Load()
 			if cur != last {
-				last, since = cur, time.Now()
+				last, sinceCPU, sinceWall = cur, cpu(), time.Now()
 				continue
 			}
-			if time.Since(since) > time.Duration(spec.TimeoutMs)*time.Millisecond {
+			if cpu()-sinceCPU > time.Duration(spec.TimeoutMs)*time.Millisecond || time.Since(sinceWall) > 40*time.Duration(spec.TimeoutMs)*time.Millisecond {
 				fmt.Fprintln(os.Stderr, "WATCHDOG: call exceeded the time limit")
 				os.Exit(4)
 			}
